@@ -14,6 +14,7 @@ def main():
         pass
     nv.build_lean()
     nv.build_codec('a')
+    nv.build_codec('a', 'rel')
     nv.build_codec('h')
     nv.build_util()
     nv.build_pair('x')
